@@ -479,13 +479,15 @@ func (c *Ctx) ruleSlot0Args() {
 // >= 1 (the R-BND obligations "element store on stack (slot >= 1)" of the
 // interprocedural census, lower and upper bound), and no bulk copy targets a
 // header from slot 0.
-func (c *Ctx) ruleSlot0Elems() {
+func (c *Ctx) ruleSlot0Elems() { c.ruleSlot0ElemsIn(nil) }
+
+func (c *Ctx) ruleSlot0ElemsIn(scope []*ssa.Function) {
 	rep := c.rep
 	marker := "element store on stack (slot >= 1)"
 	c.censusOnly = func(what, detail string) bool {
 		return what == marker || strings.Contains(detail, marker)
 	}
-	c.ruleCensus(nil, map[string]bool{"R-BND": true})
+	c.ruleCensus(scope, map[string]bool{"R-BND": true})
 	c.censusOnly = nil
 	n := 0
 	for _, o := range rep.Obls {
